@@ -22,7 +22,6 @@ EXPLANATION = (
 )
 TYPES_PY = 'hail/python/hail/expr/types.py'
 BR_PY = 'hail/python/hail/utils/byte_reader.py'
-GROUP = 4
 
 
 def validate_stub(R):
@@ -85,6 +84,7 @@ def run(R):
              'call decode uses math.sqrt (C): alleles are chosen values, not symbolic (bit packing itself is C34)',
              'CrossHair 0.0.110 path exploration is exhaustive when it reports "Confirmed over all paths"')
     R.extra['trusted_base'] = ['CrossHair/z3', 'harness/C33_enc.py reference layout and struct stub', 'harness/C32_json.py value builder and eq()']
+    GROUP = 2 if R.tier == 'quick' else 4
     ks = list(range(len(cat)))
     mods = [chrun.gen_module(f'C33_g{g // GROUP}', H.source(R.tier, ks[g:g + GROUP])) for g in range(0, len(ks), GROUP)]
     res = chgroup.run_modules(mods, per_condition_timeout=pct, workers=8)
